@@ -217,6 +217,44 @@ pub fn run_templates(run: &mut Run, templates: &[Template], bound: u32, pass: &s
     tot
 }
 
+/// Quick tier: one pass at `quick` preemptions. Thorough tier: passes at
+/// `thorough_from`, `thorough_from + 1`, ... `thorough_max` while the next
+/// pass is predicted (from the growth of the previous ones) to fit into the
+/// remaining budget. Records `completed_preemption_bound`.
+pub fn run_tiers(run: &mut Run, ts: &[Template], quick: u32, thorough_from: u32, thorough_max: u32) {
+    let mut completed: Option<u32> = None;
+    if run.tier == vcore::Tier::Quick {
+        let tot = run_templates(run, ts, quick, &format!("bound{quick}"));
+        completed = tot.min_completed_bound;
+    } else {
+        let mut prev_wall: Option<f64> = None;
+        let mut growth = 8.0f64;
+        for bound in thorough_from..=thorough_max {
+            if let Some(w) = prev_wall
+                && w * growth > run.remaining_s() * 0.8
+            {
+                run.set("stopped_before_bound", json!({"bound": bound, "predicted_s": w * growth, "remaining_s": run.remaining_s()}));
+                break;
+            }
+            let t0 = run.elapsed();
+            let tot = run_templates(run, ts, bound, &format!("bound{bound}"));
+            let wall = run.elapsed() - t0;
+            if let Some(w) = prev_wall
+                && w > 0.05
+            {
+                growth = (wall / w).clamp(2.0, 12.0);
+            }
+            prev_wall = Some(wall);
+            if tot.capped {
+                break;
+            }
+            completed = tot.min_completed_bound;
+        }
+    }
+    run.set("completed_preemption_bound", json!(completed));
+    run.set("templates", json!(ts.len()));
+}
+
 /// `--replay <file>`: re-runs exactly the recorded template + choice list.
 pub fn replay(mut run: Run, templates: &[Template]) -> ! {
     let file = run.replay_file.clone().unwrap();
